@@ -26,9 +26,9 @@ def det (K : Ring) : Nat → Matrix → MPoly
 /-- coefficient vector of `p` in `x`, highest degree first, padded to `width` columns with `shift` leading zeros:
     the row of x^s * p in a matrix whose columns are x^(width-1), …, x^0 -/
 def rowOf (K : Ring) (x : Nat) (p : MPoly) (deg : Nat) (width shiftLeft : Nat) : List MPoly :=
-  (List.range width).map (fun j =>
-    -- column j holds the coefficient of x^(width-1-j); the row is x^(width-1-deg-shiftLeft) * p
-    if j < shiftLeft ∨ j > shiftLeft + deg then [] else coeffIn K x (deg - (j - shiftLeft)) p)
+  -- `shiftLeft` zero columns, the coefficients of x^deg … x^0, zero columns up to `width`
+  List.replicate shiftLeft [] ++ (List.range (deg + 1)).map (fun t => coeffIn K x (deg - t) p) ++
+    List.replicate (width - shiftLeft - deg - 1) []
 
 /-- the (m+n-2k) × (m+n-k) Sylvester matrix of order k: rows x^(n-k-1) p … p, x^(m-k-1) q … q -/
 def sylvesterK (K : Ring) (x : Nat) (p q : MPoly) (k : Nat) : Matrix :=
